@@ -3,7 +3,7 @@
 // stepping backward undoes stepping forward; an empty incident set gives an immediately invalid circulator.
 // State: base mesh (v_param 0) in deferred-deletion mode + at most one deletion of an entity of kind v_param(1), chosen by
 // a symbolic selector (entity index = v_param(2) + selector, cases per query = v_param 5 (0: 8)).  v_param(4) = 1: skip the real range-for loops.  v_param(3): bit mask of centre groups
-// (1 vertex, 2 halfedge+edge, 4 halfface+face, 8 cell; 0 = all).
+// (1 vertex, 2 halfedge, 32 edge, 4 halfface, 16 face, 8 cell; 0 = all).
 // Centres are enumerated (concrete: several circulators std::sort in their constructor); symbolic: max_laps in {1,2,3}
 // and the deletion selector.  Every position 0 .. 3*len-1 of the walk is checked (step counts are enumerated, not sampled).
 #include "c05_common.h"
@@ -141,25 +141,27 @@ static void check_all(const TopologyKernel &m, unsigned groups, int ml, bool do_
     CIRC(F_VHF, vertex_halffaces, vhf_iter, VH, ref_vhf, false, v);
     CIRC(F_VC, vertex_cells, vc_iter, VH, ref_vc, false, v);
   }
-  if (groups & 2) for (int e = 0; e < s.nE; ++e) {
+  if (groups & (2 | 32)) for (int e = 0; e < s.nE; ++e) {
     if (s.edel[e]) continue;
-    for (int he = 2 * e; he < 2 * e + 2; ++he) {
+    if (groups & 2) for (int he = 2 * e; he < 2 * e + 2; ++he) {
       CIRC(F_HEHF, halfedge_halffaces, hehf_iter, HEH, ref_hehf, false, he);
       CIRC(F_HEF, halfedge_faces, hef_iter, HEH, ref_hef, false, he);
       CIRC(F_HEC, halfedge_cells, hec_iter, HEH, ref_hec, false, he);
     }
+    if (!(groups & 32)) continue;
     CIRC(F_EHF, edge_halffaces, ehf_iter, EH, ref_ehf, false, e);
     CIRC(F_EF, edge_faces, ef_iter, EH, ref_ef, false, e);
     CIRC(F_EC, edge_cells, ec_iter, EH, ref_ec, false, e);
   }
-  if (groups & 4) for (int f = 0; f < s.nF; ++f) {
+  if (groups & (4 | 16)) for (int f = 0; f < s.nF; ++f) {
     if (s.fdel[f]) continue;
-    for (int g = 2 * f; g < 2 * f + 2; ++g) {
+    if (groups & 4) for (int g = 2 * f; g < 2 * f + 2; ++g) {
       CIRC(F_HFHE, halfface_halfedges, hfhe_iter, HFH, ref_hfhe, true, g);
       CIRC(F_HFE, halfface_edges, hfe_iter, HFH, ref_hfe, false, g);
       CIRC(F_HFV, halfface_vertices, hfv_iter, HFH, ref_hfv, true, g);
       if (g_inc_cell[g] == -1) CIRC(F_BHFHF, boundary_halfface_halffaces, bhfhf_iter, HFH, ref_bhfhf, false, g);
     }
+    if (!(groups & 16)) continue;
     CIRC(F_FV, face_vertices, fv_iter, FH, ref_fv, true, f);
     CIRC(F_FHE, face_halfedges, fhe_iter, FH, ref_fhe, true, f);
     CIRC(F_FE, face_edges, fe_iter, FH, ref_fe, false, f);
@@ -177,7 +179,7 @@ static void check_all(const TopologyKernel &m, unsigned groups, int ml, bool do_
 
 static __attribute__((noinline)) void circ_case(unsigned i) {
   unsigned base = v_param(0), kind = v_param(1), start = v_param(2), groups = v_param(3), per = v_param(5);
-  if (groups == 0) groups = 15;
+  if (groups == 0) groups = 63;
   if (per == 0 || per > C05_PER) per = C05_PER;
   if (i >= per) return;
   unsigned idx = start + i;
@@ -199,7 +201,7 @@ extern "C" void harness_c05_circ() {
 
 static __attribute__((noinline)) void steps_case(unsigned i) {
   unsigned base = v_param(0), kind = v_param(1), start = v_param(2), groups = v_param(3), per = v_param(5);
-  if (groups == 0) groups = 15;
+  if (groups == 0) groups = 63;
   if (per == 0 || per > C05_PER) per = C05_PER;
   if (i >= per) return;
   unsigned idx = start + i;
